@@ -451,6 +451,35 @@ fn transports(run: &mut Run) {
             }
         }
     }
+    // WebSocket clients that vanish without the closing handshake
+    for ending in ["tcp close without handshake", "tcp reset"] {
+        for sq in [vec!["use-db t tok"], vec!["use-db t tok", "use-db u tok2"], vec!["use-db t bob bt", "watch k"]] {
+            n += 1;
+            let before = (count("t"), count("u"));
+            let mut c = match ws.connect() {
+                Ok(c) => c,
+                Err(e) => {
+                    run.violate(Violation { clause: "disconnect-failed".into(), shape: format!("websocket, {}: {}", ending, sq.join(" ; ")), detail: format!("cannot connect: {}", e), replay: json!({"engine":"transport","transport":"websocket","commands":sq}) });
+                    break;
+                }
+            };
+            let frames: Vec<String> = sq.iter().map(|l| l.to_string()).collect();
+            let _ = c.frames_until_marker(&frames);
+            c.drop_abruptly(ending == "tcp reset");
+            let t0 = std::time::Instant::now();
+            while (count("t"), count("u")) != before && t0.elapsed() < std::time::Duration::from_secs(4) {
+                std::thread::sleep(std::time::Duration::from_millis(5));
+            }
+            let after = (count("t"), count("u"));
+            if after != before {
+                run.violate(Violation { clause: "connection-count-not-restored".into(), shape: format!("websocket, {}: {}", ending, sq.join(" ; ")), detail: format!("before {:?}, 4 s after the connection vanished {:?}", before, after), replay: json!({"engine":"transport","transport":"websocket","ending":ending,"commands":sq}) });
+            }
+            if ws.service_dead() {
+                run.violate(Violation { clause: "disconnect-failed".into(), shape: format!("websocket, {}: {}", ending, sq.join(" ; ")), detail: "the WebSocket event loop ended".into(), replay: json!({"engine":"transport","transport":"websocket","ending":ending,"commands":sq}) });
+                break;
+            }
+        }
+    }
     run.cov("transport_sessions", json!(n));
     run.cov_add("states", n);
     run.cov_add("transitions", n);
